@@ -105,3 +105,32 @@ func ZZ_C16_disp(a []int) {
 	}
 	zzEmitU("type", uint64(zzTypeOf(q)))
 }
+
+// ZZ_C16_two: two frames of the same type on one stream whose first bytes
+// differ only in the low four bits (both symbolic): the first packet, kept
+// while the second is read, still reproduces its own first byte.
+func ZZ_C16_two(a []int) {
+	b1, b2 := zzU8("b1"), zzU8("b2")
+	zzAssume(b1>>4 == b2>>4)
+	typ := int(zzConc(uint64(b1 >> 4)))
+	if typ == 0 || typ == 3 {
+		return // Undefined cannot be written; PUBLISH bodies depend on the QoS bits (covered by ZZ_C16_disp)
+	}
+	body := zzRefBody(zzGen(zzShape{typ: typ, slen: 1, nList: 1, nz: 2}))
+	s := append(zzFrame(b1, body), zzFrame(b2, body)...)
+	r := &zzContig{b: s}
+	q1, e1 := ReadPacket(r)
+	if e1 != nil {
+		return
+	}
+	q2, e2 := ReadPacket(r)
+	zzReach("two")
+	if e2 != nil {
+		return
+	}
+	var w1, w2 zzSink
+	q1.WriteTo(&w1)
+	q2.WriteTo(&w2)
+	zzAssert(len(w1.b) > 0 && w1.b[0] == b1, "a packet kept while the next one is read no longer reproduces its first byte")
+	zzAssert(len(w2.b) > 0 && w2.b[0] == b2, "writing the decoded packet does not reproduce the first byte")
+}
